@@ -15,6 +15,7 @@ def main():
     if driver_ok:
         (_dis, _outs), strings = P.stream_parse(chk, 5 if chk.thorough else 4, 4 if chk.thorough else 3, 30000 if chk.thorough else 3000)
         PL.stream_lr(chk, strings)
+        PL.stream_lex(chk, strings)
         cases = P.build_cases(chk, 5000 if chk.thorough else 1000, depth=6 if chk.thorough else 5)
         P.stream_eval(chk, cases, per_case=8 if chk.thorough else 4)
     else:
@@ -35,7 +36,7 @@ def main():
         rule='token-kind sequences (all, up to the stated length), all strings over an 18-character lexer alphabet up to the stated length, '
              'grammar-directed expressions with minimal parentheses and random blanks, one/two-edit mutants; non-trivial = distinct accepted string of length > 1',
         trusted=['Lean 4.33 kernel', 'axioms: propext, Classical.choice, Quot.sound only',
-                 'py2lean translator (evaluator), grammar2lean dump (declarations), plurallr2lean dump (rply LALR tables of the live parser; states/productions renumbered canonically)',
+                 'py2lean translator (evaluator), grammar2lean dump (declarations incl. the lexer regexes that Model/PluralLex interprets), plurallr2lean dump (rply LALR tables of the live parser; states/productions renumbered canonically)',
                  'hand-written lexer model and LR driver loop (rply LexerStream.next / LRParser.parse / _reduce_production + lib/intexpr.py action functions): tied to the real parser by the '
                  'plural-parse and plural-lr streams (outcome, tree, sequence of reductions); rply\'s table CONSTRUCTION is not modelled - its output is dumped and proved to accept exactly the declared grammar with the C trees',
                  'Spec.mathEval / Spec.D / Spec.Amb / Spec.Tokens / Spec.PluralY are my reading of ISO C and plural.y'],
@@ -47,7 +48,8 @@ def main():
                     'no third outcome); lr_iff_parse / lr_iff_derives / lr_accept_iff_plural_y / lr_parse_string_iff (rply\'s LR driver over the LALR tables dumped from the live parser returns '
                     'e iff the C grammar derives e); lr_eq_parse / lr_never_crashes / lr_parse_string_eq (LR driver model = RD model as functions; the driver never reaches its internal crash outcome). '
                     'plural_y_is_declared_grammar / lr_language_is_declared_grammar (Spec.Amb = CFG language of the dumped productions = language of the dumped tables: rply\'s LALR construction validated for this grammar). '
-                    'OUTSTANDING (test-level): lexer loop / LR driver loop / action functions are hand-modelled, tied to the Python source by the streams only.')
+                    'lex_regex_eq / lex_regex_iff_tokens / lex_regex_never_crashes (lexer interpreted from the dumped regexes inside rply\'s loop = hand-written lexer model = Spec.Tokens). '
+                    'OUTSTANDING (test-level): regex-subset semantics, rply lexer loop, LR driver loop and action functions are hand-written readings of the Python source, tied by the plural-parse / plural-lr / plural-lex streams only.')
 
 if __name__ == '__main__':
     common.main_wrapper(main)
